@@ -9,9 +9,11 @@ import (
 	"flag"
 	"fmt"
 	"os"
+	"os/exec"
 	"path/filepath"
 	"sort"
 	"strings"
+	"sync"
 )
 
 // ---------- PRNG: splitmix64, the only source of randomness ----------
@@ -36,11 +38,11 @@ func (r *Rng) Intn(n int) int {
 }
 
 // Range returns a value in [lo,hi].
-func (r *Rng) Range(lo, hi int) int { return lo + r.Intn(hi-lo+1) }
-func (r *Rng) Bool() bool          { return r.U64()&1 == 1 }
+func (r *Rng) Range(lo, hi int) int     { return lo + r.Intn(hi-lo+1) }
+func (r *Rng) Bool() bool               { return r.U64()&1 == 1 }
 func (r *Rng) Chance(num, den int) bool { return r.Intn(den) < num }
-func (r *Rng) Pick(xs []int) int   { return xs[r.Intn(len(xs))] }
-func (r *Rng) Fork() *Rng          { return NewRng(r.U64()) }
+func (r *Rng) Pick(xs []int) int        { return xs[r.Intn(len(xs))] }
+func (r *Rng) Fork() *Rng               { return NewRng(r.U64()) }
 
 // ---------- Coq term rendering ----------
 
@@ -139,11 +141,11 @@ func WriteJSONLines(path string, vals []interface{}) error {
 // Result of running one case against the implementation.
 type Result struct {
 	ID         int64       `json:"id"`
-	Term       string      `json:"-"`          // Coq term of type `case` (inputs + observed outputs)
-	Impl       interface{} `json:"impl"`       // observed outputs, for the replay file
-	NonTrivial bool        `json:"nontrivial"` // by the property's stated rule
-	Tags       []string    `json:"tags"`       // input features (for the distribution report and finding matchers)
-	Hash       string      `json:"hash"`       // content hash of the input
+	Term       string      `json:"term,omitempty"` // Coq term of type `case` (inputs + observed outputs)
+	Impl       interface{} `json:"impl"`           // observed outputs, for the replay file
+	NonTrivial bool        `json:"nontrivial"`     // by the property's stated rule
+	Tags       []string    `json:"tags"`           // input features (for the distribution report and finding matchers)
+	Hash       string      `json:"hash"`           // content hash of the input
 }
 
 func Hash(v interface{}) string {
@@ -185,7 +187,9 @@ func WriteRun(dir, header, verdictFn string, results []Result, perShard int) err
 		for _, t := range r.Tags {
 			st.TagHistogram[t]++
 		}
-		impl = append(impl, r)
+		rr := r
+		rr.Term = ""
+		impl = append(impl, rr)
 	}
 	st.Distinct = len(seen)
 	st.DistinctNontrivial = len(seenNT)
@@ -237,8 +241,145 @@ func SortedKeys(m map[string]int) []string {
 
 // ---------- command-line skeleton shared by every per-property binary ----------
 
-// Main implements:  hx gen -seed S -tier T -out cases.jsonl     and     hx run -in cases.jsonl -out DIR
-func Main(gen func(seed uint64, tier string) []interface{}, run func(cases []json.RawMessage, dir string) error) {
+// Harness describes one property's driver.
+type Harness struct {
+	Gen      func(seed uint64, tier string) []interface{}
+	RunCase  func(raw json.RawMessage) (Result, error)
+	Crash    func(raw json.RawMessage, stderr string) (Result, error) // how to render a case that killed the process (nil: fatal)
+	Header   string                                                   // Require line(s) of generated shard files
+	Verdict  string                                                   // name of the `case -> Z * Z` function
+	PerShard int
+	Isolate  bool // run cases in child processes (needed when a defect can kill the process)
+	Chunk    int  // cases per child process
+	Workers  int  // concurrent child processes
+}
+
+func fatal(err error) {
+	fmt.Fprintln(os.Stderr, err)
+	os.Exit(2)
+}
+
+func (h *Harness) runInProcess(cases []json.RawMessage) ([]Result, error) {
+	var out []Result
+	for _, raw := range cases {
+		r, err := h.RunCase(raw)
+		if err != nil {
+			return nil, err
+		}
+		out = append(out, r)
+	}
+	return out, nil
+}
+
+// runChild runs the cases in one child process; on a crash it bisects down to single cases.
+func (h *Harness) runChild(cases []json.RawMessage, tmpdir string, tag string) ([]Result, error) {
+	in := filepath.Join(tmpdir, "chunk_"+tag+".jsonl")
+	outp := filepath.Join(tmpdir, "chunk_"+tag+".out")
+	vals := make([]interface{}, len(cases))
+	for i, c := range cases {
+		vals[i] = c
+	}
+	if err := WriteJSONLines(in, vals); err != nil {
+		return nil, err
+	}
+	defer os.Remove(in)
+	defer os.Remove(outp)
+	cmd := exec.Command(os.Args[0], "runchunk", "-in", in, "-out", outp)
+	var stderr strings.Builder
+	cmd.Stderr = &stderr
+	err := cmd.Run()
+	if err == nil {
+		raws, err := ReadCases(outp)
+		if err != nil {
+			return nil, err
+		}
+		res := make([]Result, len(raws))
+		for i, r := range raws {
+			if err := json.Unmarshal(r, &res[i]); err != nil {
+				return nil, err
+			}
+		}
+		if len(res) != len(cases) {
+			return nil, fmt.Errorf("child returned %d results for %d cases", len(res), len(cases))
+		}
+		return res, nil
+	}
+	if len(cases) == 1 {
+		if h.Crash == nil {
+			return nil, fmt.Errorf("case crashed the harness process: %s\n%s", string(cases[0]), tail(stderr.String(), 3000))
+		}
+		r, err := h.Crash(cases[0], tail(stderr.String(), 3000))
+		if err != nil {
+			return nil, err
+		}
+		return []Result{r}, nil
+	}
+	mid := len(cases) / 2
+	a, err := h.runChild(cases[:mid], tmpdir, tag+"a")
+	if err != nil {
+		return nil, err
+	}
+	b, err := h.runChild(cases[mid:], tmpdir, tag+"b")
+	if err != nil {
+		return nil, err
+	}
+	return append(a, b...), nil
+}
+
+func tail(s string, n int) string {
+	if len(s) > n {
+		return s[len(s)-n:]
+	}
+	return s
+}
+
+func (h *Harness) runIsolated(cases []json.RawMessage, dir string) ([]Result, error) {
+	chunk := h.Chunk
+	if chunk <= 0 {
+		chunk = 25
+	}
+	workers := h.Workers
+	if workers <= 0 {
+		workers = 8
+	}
+	type job struct {
+		idx   int
+		cases []json.RawMessage
+	}
+	var jobs []job
+	for i := 0; i < len(cases); i += chunk {
+		j := i + chunk
+		if j > len(cases) {
+			j = len(cases)
+		}
+		jobs = append(jobs, job{len(jobs), cases[i:j]})
+	}
+	results := make([][]Result, len(jobs))
+	errs := make([]error, len(jobs))
+	var wg sync.WaitGroup
+	sem := make(chan struct{}, workers)
+	for _, jb := range jobs {
+		wg.Add(1)
+		sem <- struct{}{}
+		go func(jb job) {
+			defer wg.Done()
+			defer func() { <-sem }()
+			results[jb.idx], errs[jb.idx] = h.runChild(jb.cases, dir, fmt.Sprintf("%d", jb.idx))
+		}(jb)
+	}
+	wg.Wait()
+	var out []Result
+	for i := range jobs {
+		if errs[i] != nil {
+			return nil, errs[i]
+		}
+		out = append(out, results[i]...)
+	}
+	return out, nil
+}
+
+// Main implements:  hx gen -seed S -tier T -out cases.jsonl   |   hx run -in cases.jsonl -out DIR   |   hx runchunk (internal)
+func (h *Harness) Main() {
 	if len(os.Args) < 2 {
 		fmt.Fprintln(os.Stderr, "usage: gen|run ...")
 		os.Exit(2)
@@ -250,9 +391,8 @@ func Main(gen func(seed uint64, tier string) []interface{}, run func(cases []jso
 		tier := fs.String("tier", "quick", "")
 		out := fs.String("out", "cases.jsonl", "")
 		fs.Parse(os.Args[2:])
-		if err := WriteJSONLines(*out, gen(*seed, *tier)); err != nil {
-			fmt.Fprintln(os.Stderr, err)
-			os.Exit(2)
+		if err := WriteJSONLines(*out, h.Gen(*seed, *tier)); err != nil {
+			fatal(err)
 		}
 	case "run":
 		fs := flag.NewFlagSet("run", flag.ExitOnError)
@@ -260,12 +400,43 @@ func Main(gen func(seed uint64, tier string) []interface{}, run func(cases []jso
 		out := fs.String("out", ".", "")
 		fs.Parse(os.Args[2:])
 		cases, err := ReadCases(*in)
-		if err == nil {
-			err = run(cases, *out)
+		if err != nil {
+			fatal(err)
+		}
+		if err := os.MkdirAll(*out, 0o755); err != nil {
+			fatal(err)
+		}
+		var results []Result
+		if h.Isolate {
+			results, err = h.runIsolated(cases, *out)
+		} else {
+			results, err = h.runInProcess(cases)
 		}
 		if err != nil {
-			fmt.Fprintln(os.Stderr, err)
-			os.Exit(2)
+			fatal(err)
+		}
+		if err := WriteRun(*out, h.Header, h.Verdict, results, h.PerShard); err != nil {
+			fatal(err)
+		}
+	case "runchunk":
+		fs := flag.NewFlagSet("runchunk", flag.ExitOnError)
+		in := fs.String("in", "", "")
+		out := fs.String("out", "", "")
+		fs.Parse(os.Args[2:])
+		cases, err := ReadCases(*in)
+		if err != nil {
+			fatal(err)
+		}
+		results, err := h.runInProcess(cases)
+		if err != nil {
+			fatal(err)
+		}
+		vals := make([]interface{}, len(results))
+		for i, r := range results {
+			vals[i] = r
+		}
+		if err := WriteJSONLines(*out, vals); err != nil {
+			fatal(err)
 		}
 	default:
 		fmt.Fprintln(os.Stderr, "unknown subcommand")
